@@ -232,9 +232,11 @@ output_byte(struct archive_write_filter *f, unsigned char c)
 	if (state->compressed_buffer_size == state->compressed_offset) {
 		int ret = __archive_write_filter(f->next_filter,
 		    state->compressed, state->compressed_buffer_size);
+		/* The buffer is empty again even if it could not be
+		 * written: a later call must not store past its end. */
+		state->compressed_offset = 0;
 		if (ret != ARCHIVE_OK)
 			return ARCHIVE_FATAL;
-		state->compressed_offset = 0;
 	}
 
 	return ARCHIVE_OK;
@@ -254,13 +256,17 @@ output_code(struct archive_write_filter *f, int ocode)
 	 */
 	bit_offset = state->bit_offset % 8;
 	state->bit_buf |= (ocode << bit_offset) & 0xff;
-	output_byte(f, state->bit_buf);
+	ret = output_byte(f, state->bit_buf);
+	if (ret != ARCHIVE_OK)
+		return ret;
 
 	bits = state->code_len - (8 - bit_offset);
 	ocode >>= 8 - bit_offset;
 	/* Get any 8 bit parts in the middle (<=1 for up to 16 bits). */
 	if (bits >= 8) {
-		output_byte(f, ocode & 0xff);
+		ret = output_byte(f, ocode & 0xff);
+		if (ret != ARCHIVE_OK)
+			return ret;
 		ocode >>= 8;
 		bits -= 8;
 	}
